@@ -163,6 +163,18 @@ def run(ctx):
                        {"kind": "d", "term": "fx", "local": True, "bar": b["id"], "t0": Fr("0.5"), "v0": Fr(-1000), "t1": Fr(1), "v1": Fr(-1000)},
                        {"kind": "c", "term": "fy", "local": True, "bar": b["id"], "t": Fr("0.3"), "v": Fr(-200)}]
         structs.append(s)
+    # a bar whose block in the file holds many slice nodes (37 and 27), ...
+    structs += [G.gen_many_positions(rng, 26, 0), G.gen_many_positions(rng, 16, 0)]
+    # ... and a structure measured in a small unit from an origin in its middle: coordinates of millions, of either sign, with fractions
+    far = G.Structure()
+    G.std_mat_sec(far)
+    far.nodes = {"west": (Fr("-2500000.25"), Fr("0.5"), (True, True, True)), "east": (Fr("2500000.35"), Fr("0.5"), (False, True, False)),
+                 "foot": (Fr("2500000.35"), Fr("-3999999.65"), (True, True, True))}
+    far.bars = [{"id": "girder", "n1": "west", "l1": G.LINKS["rigid"], "n2": "east", "l2": G.LINKS["rigid"], "mat": "steel", "sec": "ipe"},
+                {"id": "column", "n1": "east", "l1": G.LINKS["rigid"], "n2": "foot", "l2": G.LINKS["rigid"], "mat": "steel", "sec": "ipe"}]
+    far.loads = [{"kind": "d", "term": "fy", "local": True, "bar": "girder", "t0": Fr(0), "v0": Fr("-0.002"), "t1": Fr(1), "v1": Fr("-0.002")}]
+    far.meta = {"kind": "far-from-origin"}
+    structs.append(far)
     cases = [{"Text": s.text(), "Weight": i % 3 == 0, "Solve": True, "Assemble": True, "Error": "1e-6" if i % 4 != 2 else "1e-3", "ViaPre": True} for i, s in enumerate(structs)]
     direct = [dict(c, ViaPre=False) for c in cases]
     if ctx.replay:
